@@ -95,13 +95,12 @@ SeqOfSet(S) == IF S = {} THEN <<>> ELSE LET x == CHOOSE y \in S : \A z \in S : y
 SpecPlan(c) == LET m == PlanMap(c) IN
                [i \in 1..Cardinality(DOMAIN m) |->
                    LET r == SeqOfSet(DOMAIN m)[i] IN [old |-> r, new |-> NewId(r), parents |-> m[r]]]
-SpecOut(c, present) ==
-    IF Unrelated(c) THEN [status |-> "unrelated"]
-    ELSE LET plan == SpecPlan(c)
-             left == {e.old : e \in {f \in Entries(plan) : f.new \notin present}}
-         IN [status |-> "ok", plan |-> plan, back |-> plan, info |-> [revno |-> 0, rev |-> 0],
-             infoBack |-> [revno |-> 0, rev |-> 0], todo0 |-> SeqOfSet(Keys(plan)),
-             present |-> SeqOfSet(present \cap {e.new : e \in Entries(plan)}), todo1 |-> SeqOfSet(left)]
+SpecOutOf(plan, present) ==
+    LET left == {e.old : e \in {f \in Entries(plan) : f.new \notin present}}
+    IN [status |-> "ok", plan |-> plan, back |-> plan, info |-> [revno |-> 0, rev |-> 0],
+        infoBack |-> [revno |-> 0, rev |-> 0], todo0 |-> SeqOfSet(Keys(plan)),
+        present |-> SeqOfSet(present \cap {e.new : e \in Entries(plan)}), todo1 |-> SeqOfSet(left)]
+SpecOut(c, present) == IF Unrelated(c) THEN [status |-> "unrelated"] ELSE SpecOutOf(SpecPlan(c), present)
 Conforms(c, o) ==
     IF Unrelated(c) THEN o.status = "unrelated"
     ELSE o.status = "ok" /\ Entries(o.plan) = Entries(SpecPlan(c))
